@@ -433,6 +433,7 @@ impl Circuit {
 
     pub fn reset<C>(&mut self, config: &CircuitBreakerConfig<C>) {
         self.transition_to(CircuitState::Closed, config);
+        self.clear_window();
     }
 
     fn transition_to<C>(&mut self, state: CircuitState, config: &CircuitBreakerConfig<C>) {
